@@ -337,6 +337,12 @@ pub assume_specification<T, A: core::alloc::Allocator> [Vec::<T, A>::into_boxed_
 pub assume_specification<T: Clone> [<[T]>::fill] (s: &mut [T], v: T)
     ensures final(s)@.len() == old(s)@.len(), forall|i: int| 0 <= i < final(s)@.len() ==> final(s)@[i] == v;
 
+/// stand-in for u16::to_be_bytes (its std signature uses a const expression Verus cannot name; R10)
+#[verifier::external_body]
+pub fn u16_to_be_bytes(x: u16) -> (r: [u8; 2])
+    ensures r@[0] == (x / 256) as u8, r@[1] == (x % 256) as u8
+{ x.to_be_bytes() }
+
 pub uninterp spec fn tz(x: usize) -> u32;
 pub assume_specification [usize::trailing_zeros] (x: usize) -> (r: u32)
     ensures r == tz(x), r <= 64;
@@ -355,6 +361,12 @@ pub fn fmt_stub() -> String { String::new() }
 pub mod ax {
     use vstd::prelude::*;
     use crate::{ReadSpec, WriteSpec};
+    use vstd::std_specs::cmp::PartialEqSpec;
+    /// `==` on byte slices compares contents (vstd leaves eq_spec of slices unspecified)
+    #[verifier::external_body]
+    pub broadcast proof fn axiom_slice_u8_eq(a: &[u8], b: &[u8])
+        ensures #[trigger] a.eq_spec(b) == (a@ == b@)
+    {}
     #[verifier::external_body]
     pub broadcast proof fn axiom_snk_eq_refl<W: std::io::Write>(w: &W)
         ensures #[trigger] w.snk_eq(w)
